@@ -22,6 +22,7 @@ def fixed_docs():
         R(C("top"), E("a", T("1"), E("b", T("2"), a=[A("id", "i1")]), T("x"), E("b", T("3"), a=[A("id", "i2")]), E("a", E("b", T("1")), a=[A("id", "i3")]), a=[A("x", "1.5")]), PI("u", "")),
         R(E("a", E("a", E("a", E("b"), T("t")), E("b")), E("c", a=[A("x", ""), A("y", " ")]), T("  "), a=[A("xml:lang", "en-US", p="xml", u=xdm.XML_NS)] if False else [])),
         R(E("c", E("b", T("-2")), E("b", T("0.5")), E("b", T("abc")), E("b", T(" 4 ")), E("b"), a=[A("x", "10")])),
+        R(E("c", E("a", E("a", E("b"), E("c", E("b"))), E("b")), E("b", E("a", E("b", a=[A("x", "1")]))))),   # nested same-name ancestors
     ]
 
 
@@ -179,10 +180,9 @@ def run_cases(docs, flats, cases, wd, kind="native", mode="eval", tag="c02", fla
             ev = {"e": "Eval", "kind": mode, "doc": d, "ctx": ctx, "pos": pos, "size": size, "text": xpgen.render(e),
                   "expr": xpgen.strip_render_only(e), "vars": vs}
             r = res[k]
-            if "error" in r:
-                ev["error"] = r["error"]
-            else:
-                ev["res"] = r["res"]
+            for f in ("error", "res", "matched"):
+                if f in r:
+                    ev[f] = r[f]
             events.append(ev)
     return events, crashes
 
